@@ -181,17 +181,21 @@ Definition u32 (v : Z) : Prop := 0 <= v < 2 ^ 32.
 (* photo size sources as the format stores them: the fields that belong to the type are
    in range, all other fields are zero (PhotoSize is never written by the encoder) *)
 Inductive valid_pss : pss -> Prop :=
-| VLegacy s : i64 s -> valid_pss (mkPss 0 0 0 s 0 0 0 0 0 0 0)
-| VThumb ft th : u32 ft -> i32 th -> valid_pss (mkPss 1 0 0 0 ft th 0 0 0 0 0)
-| VDialog t d h : t = 2 \/ t = 3 -> i64 d -> i64 h -> valid_pss (mkPss t 0 0 0 0 0 d h 0 0 0)
-| VSet i h : i64 i -> i64 h -> valid_pss (mkPss 4 0 0 0 0 0 0 0 i h 0)
-| VFull v l s : i64 v -> i32 l -> i64 s -> valid_pss (mkPss 5 v l s 0 0 0 0 0 0 0)
-| VDialogLegacy t d h v l : t = 6 \/ t = 7 -> i64 d -> i64 h -> i64 v -> i32 l -> valid_pss (mkPss t v l 0 0 0 d h 0 0 0)
-| VSetLegacy i h v l : i64 i -> i64 h -> i64 v -> i32 l -> valid_pss (mkPss 8 v l 0 0 0 0 0 i h 0)
-| VSetVersion i h ver : i64 i -> i64 h -> i32 ver -> valid_pss (mkPss 9 0 0 0 0 0 0 0 i h ver).
+| VLegacy s : i64 s -> valid_pss (mkPss c_PhotoSizeSourceLegacy 0 0 s 0 0 0 0 0 0 0)
+| VThumb ft th : u32 ft -> i32 th -> valid_pss (mkPss c_PhotoSizeSourceThumbnail 0 0 0 ft th 0 0 0 0 0)
+| VDialog t d h : t = c_PhotoSizeSourceDialogPhotoSmall \/ t = c_PhotoSizeSourceDialogPhotoBig -> i64 d -> i64 h ->
+    valid_pss (mkPss t 0 0 0 0 0 d h 0 0 0)
+| VSet i h : i64 i -> i64 h -> valid_pss (mkPss c_PhotoSizeSourceStickerSetThumbnail 0 0 0 0 0 0 0 i h 0)
+| VFull v l s : i64 v -> i32 l -> i64 s -> valid_pss (mkPss c_PhotoSizeSourceFullLegacy v l s 0 0 0 0 0 0 0)
+| VDialogLegacy t d h v l : t = c_PhotoSizeSourceDialogPhotoSmallLegacy \/ t = c_PhotoSizeSourceDialogPhotoBigLegacy ->
+    i64 d -> i64 h -> i64 v -> i32 l -> valid_pss (mkPss t v l 0 0 0 d h 0 0 0)
+| VSetLegacy i h v l : i64 i -> i64 h -> i64 v -> i32 l ->
+    valid_pss (mkPss c_PhotoSizeSourceStickerSetThumbnailLegacy v l 0 0 0 0 0 i h 0)
+| VSetVersion i h ver : i64 i -> i64 h -> i32 ver ->
+    valid_pss (mkPss c_PhotoSizeSourceStickerSetThumbnailVersion 0 0 0 0 0 0 0 i h ver).
 
 Definition valid_file_id (f : file_id) : Prop :=
-  0 <= f_type f < c_lastType /\ u32 (f_dc f) /\
+  0 <= f_type f < c_lastType /\ i32 (f_dc f) /\
   bytes_ok (f_ref f) /\ len (f_ref f) < 2 ^ 24 /\ bytes_ok (f_url f) /\ len (f_url f) < 2 ^ 24 /\
   (if len (f_url f) =? 0
    then i64 (f_id f) /\ i64 (f_hash f) /\
@@ -227,7 +231,7 @@ Proof.
   intros V. unfold decode_pss, c_latestSubVersion.
   change (34 <? 32) with false. change (34 >=? 4) with true. cbn [andb bind].
   unfold encode_pss, encode_dialog, encode_sticker_set, encode_local_volume.
-  inversion V; subst; cbn [p_type p_volume p_local p_secret p_ftype p_thumb p_dialog p_dialog_hash p_set_id p_set_hash p_version];
+  inversion V; subst; unfold_pss_consts; cbn [p_type p_volume p_local p_secret p_ftype p_thumb p_dialog p_dialog_hash p_set_id p_set_hash p_version];
     try match goal with H : _ = _ \/ _ = _ |- _ => destruct H; subst end;
     unfold_pss_consts; cbn [Z.eqb Pos.eqb orb andb];
     rewrite <- ?app_assoc;
@@ -290,7 +294,7 @@ Proof.
   destruct Hsub as (sub & Hsub & Hsubv). rewrite Hsub. cbn [bind].
   subst whole. rewrite rd_u32_rt by exact Tu. cbn [bind]. rewrite Tw, Tr, Tt.
   unfold c_lastType. destruct (Z.geb_spec t 18); [lia|].
-  rewrite rd_u32_rt by exact Hdc. cbn [bind].
+  change (encode_uint32 dc) with (encode_int32 dc). rewrite rd_i32_rt by exact Hdc. cbn [bind].
   assert (Eref : (if hasref then wrap (decode_bytes ((if hasref then encode_bytes rf else []) ++ tail)) else Ok ([], (if hasref then encode_bytes rf else []) ++ tail)) = Ok (rf, tail)).
   { subst hasref. destruct (Z.eqb_spec (len rf) 0) as [E|E]; cbn [negb].
     - apply len_zero_nil in E. subst rf. reflexivity.
@@ -435,7 +439,7 @@ Proof.
   rewrite go_index_ok by lia. cbn [bind].
   apply safe_bind_np; [apply safe_rd_u32, OK|]. intros tid b1 OK1.
   match goal with |- context [if ?c then Err FUnknownType else _] => destruct c; [discriminate|] end.
-  apply safe_bind_np; [apply safe_rd_u32, OK1|]. intros dc b2 OK2.
+  apply safe_bind_np; [apply safe_rd_i32, OK1|]. intros dc b2 OK2.
   apply safe_bind_np.
   { match goal with |- context [if ?c then _ else _] => destruct c end; [apply safe_rd_bytes, OK2|cbn [safe]; exact OK2]. }
   intros reference b3 OK3.
